@@ -150,3 +150,21 @@ def _concat_eq(self, other):
 
 
 _ss.SequenceConcatenation.__eq__ = _concat_eq
+
+
+# --- 5. re.Pattern.search on symbolic strings never tries the position == len(string), so a
+# pattern whose only match is empty at the very end (e.g. r'(\\*)("|$)' on 'a') reports None.
+# Found by the engine self-test.  search == first element of finditer.
+def _search(self, string, pos=0, endpos=None):
+    if not isinstance(self, re.Pattern):
+        raise TypeError
+    if endpos is None:
+        it = self.finditer(string, pos)
+    else:
+        it = self.finditer(string, pos, endpos)
+    for m in it:
+        return m
+    return None
+
+
+_core._PATCH_REGISTRATIONS[re.Pattern.search] = _search
